@@ -235,7 +235,9 @@ fn run_hist<C: AnsCombo>(segs: &[Vec<&str>]) -> String {
     }
     let mut outs: Vec<String> = Vec::new();
     let mut coder: Coder<C> = match init.as_slice() {
-        ["new"] => AnsCoder::new(),
+        // `new()` and `Default::default()` must be the same coder: alternate between them by the
+        // length of the line, so that both are exercised on every run
+        ["new"] => if segs.iter().map(|x| x.len()).sum::<usize>() % 2 == 0 { AnsCoder::new() } else { Default::default() },
         ["compressed", ws] => {
             let l = match parse_list(ws) { Some(l) => l, None => return "bad-op".into() };
             match AnsCoder::from_compressed(words::<C::W>(&l)) {
@@ -1153,6 +1155,7 @@ fn oracle_combo<C: AnsCombo>(rng: &mut Rng, w: u32, s: u32, bps: &[(u32, Vec<u32
         }
         let mut ghost: Vec<(usize, usize)> = Vec::new();
         let mut desc = format!("ans {:x} {:x} | {} {}", w, s, if from_bin { "binary" } else { "compressed" }, show_list(init_words.clone()));
+        crate::util::set_case(&desc);
         let steps = rng.next() % 40;
         let mut info_bits = 0f64; // only for the histogram
         for _ in 0..steps {
@@ -1162,6 +1165,7 @@ fn oracle_combo<C: AnsCombo>(rng: &mut Rng, w: u32, s: u32, bps: &[(u32, Vec<u32
             if r < 7 {
                 let sym = rng.below(cdf.len() as u128 - 1) as usize;
                 desc.push_str(&format!(" | enc {:x} {:x} {:x} {:x}", b, p, cdf[sym], cdf[sym + 1] - cdf[sym]));
+                crate::util::set_case(&desc);
                 let o1 = C::enc_sym(&mut coder, b, p, &cdf, sym).unwrap();
                 let o2 = C::enc_sym(&mut twin, b, p, &cdf, sym).unwrap();
                 rep.eval("C01");
@@ -1175,6 +1179,7 @@ fn oracle_combo<C: AnsCombo>(rng: &mut Rng, w: u32, s: u32, bps: &[(u32, Vec<u32
                 if let Some(&(gmi, gsym)) = ghost.last() {
                     let (b, p, cdf) = models[gmi].clone();
                     desc.push_str(&format!(" | dec {:x} {:x} {}", b, p, show_list(cdf.clone())));
+                    crate::util::set_case(&desc);
                     let o1 = C::dec(&mut coder, b, p, &cdf).unwrap();
                     let _ = C::dec(&mut twin, b, p, &cdf).unwrap();
                     ghost.pop();
@@ -1200,6 +1205,7 @@ fn oracle_combo<C: AnsCombo>(rng: &mut Rng, w: u32, s: u32, bps: &[(u32, Vec<u32
                 let mut other: AnsCoder<C::W, C::S> = AnsCoder::from_binary(words::<C::W>(&vec![3, 1, 4, 1, 5])).unwrap();
                 other.clone_from(&copy);
                 desc.push_str(" | clone");
+                crate::util::set_case(&desc);
                 rep.eval("C01");
                 if (copy.bulk().clone(), copy.state()) != before || (other.bulk().clone(), other.state()) != before {
                     rep.fail("C01", format!("{} => clone() / clone_from() is not a copy: bulk {:?} state {:x}, clone bulk {:?} state {:x}, clone_from bulk {:?} state {:x}",
@@ -1216,6 +1222,7 @@ fn oracle_combo<C: AnsCombo>(rng: &mut Rng, w: u32, s: u32, bps: &[(u32, Vec<u32
                 let o = C::enc_sym(&mut coder, b, p, &cdf, sym).unwrap();
                 rep.eval("C09");
                 desc.push_str(&format!(" | encnone {:x} {:x}", b, p));
+                crate::util::set_case(&desc);
                 if o != "impossible" || before != (coder.bulk().clone(), coder.state()) {
                     rep.fail("C09", format!("{} => out-of-support symbol {:x}: result {} / coder changed", desc, sym, o));
                     break;
@@ -1231,6 +1238,7 @@ fn oracle_combo<C: AnsCombo>(rng: &mut Rng, w: u32, s: u32, bps: &[(u32, Vec<u32
                 }).collect();
                 let err_at = if (form == 2 || form == 3) && k > 0 && rng.chance(1, 3) { Some(rng.below(k as u128) as usize) } else { None };
                 desc.push_str(&format!(" | encs {:x} {:x} {:x} {} {} {}", b, p, form, show_list(cdf.clone()), show_list(syms.iter().map(|&x| x as u128)), err_at.map(|e| hex(e as u128)).unwrap_or("-".into())));
+                crate::util::set_case(&desc);
                 let o1 = C::enc_batch(&mut coder, b, p, form, &cdf, &syms, err_at).unwrap();
                 // reference: the per-symbol loop in the order the form prescribes
                 let mut order: Vec<usize> = (0..k).collect();
@@ -1265,6 +1273,7 @@ fn oracle_combo<C: AnsCombo>(rng: &mut Rng, w: u32, s: u32, bps: &[(u32, Vec<u32
             } else if r == 13 {
                 // reload (C01) – export / re-import must be the identity on behaviour
                 desc.push_str(" | reload");
+                crate::util::set_case(&desc);
                 let v = coder.clone().into_compressed().unwrap();
                 let shown: Vec<u128> = v.iter().map(|&x| to_u128(x)).collect();
                 coder = match AnsCoder::from_compressed(v) {
@@ -1299,6 +1308,7 @@ fn oracle_combo<C: AnsCombo>(rng: &mut Rng, w: u32, s: u32, bps: &[(u32, Vec<u32
                     _ => expected.clone(),
                 };
                 desc.push_str(match kind { 0 => " | getc", 1 => " | iter", 2 => " | clone", 3 => " | getb", _ => " | nw" });
+                crate::util::set_case(&desc);
                 if shown != expected {
                     rep.fail("C08", format!("{} => view {} but finishing now gives {}", desc, show_list(shown), show_list(expected)));
                     break;
@@ -1334,12 +1344,14 @@ fn oracle_combo<C: AnsCombo>(rng: &mut Rng, w: u32, s: u32, bps: &[(u32, Vec<u32
             let mut snaps = vec![enc.pos()];
             let mut msg: Vec<(usize, usize)> = Vec::new();
             let mut d7 = format!("ans {:x} {:x} | {} {}", w, s, if from_bin { "binary" } else { "compressed" }, show_list(init_words.clone()));
+            crate::util::set_case(&d7);
             for _ in 0..n {
                 let mi = (rng.next() % 3) as usize;
                 let (b, p, cdf) = models[mi].clone();
                 let sym = rng.below(cdf.len() as u128 - 1) as usize;
                 C::enc_sym(&mut enc, b, p, &cdf, sym).unwrap();
                 d7.push_str(&format!(" | enc {:x} {:x} {:x} {:x} | pos", b, p, cdf[sym], cdf[sym + 1] - cdf[sym]));
+                crate::util::set_case(&d7);
                 msg.push((mi, sym));
                 snaps.push(enc.pos());
             }
@@ -1446,6 +1458,7 @@ fn oracle_combo<C: AnsCombo>(rng: &mut Rng, w: u32, s: u32, bps: &[(u32, Vec<u32
                 AnsCoder::from_raw_parts(Cursor::new_at_write_beginning(vec![from_u128::<C::W>(0); cap]), from_u128::<C::S>(0));
             let mut pushed: Vec<(usize, usize)> = Vec::new();
             let mut d9 = format!("ansc {:x} {:x} {:x}", w, s, cap);
+            crate::util::set_case(&d9);
             let mut failures = 0;
             let mut export_checked = 0;
             for _ in 0..60 {
@@ -1455,6 +1468,7 @@ fn oracle_combo<C: AnsCombo>(rng: &mut Rng, w: u32, s: u32, bps: &[(u32, Vec<u32
                 let before = (enc.pos(), enc.bulk().buf().to_vec());
                 let o = C::enc(&mut enc, b, p, Some((cdf[sym], cdf[sym + 1] - cdf[sym]))).unwrap();
                 d9.push_str(&format!(" | enc {:x} {:x} {:x} {:x}", b, p, cdf[sym], cdf[sym + 1] - cdf[sym]));
+                crate::util::set_case(&d9);
                 rep.eval("C09");
                 // C01 on a bounded backend: exporting (into_compressed / into_binary) either equals what the same
                 // coder exports into an unbounded Vec, or is refused because the words do not fit - never a
@@ -1532,10 +1546,12 @@ fn oracle_combo<C: AnsCombo>(rng: &mut Rng, w: u32, s: u32, bps: &[(u32, Vec<u32
                 let mut rev: Option<AnsCoder<C::W, C::S, Reverse<Cursor<C::W, Vec<C::W>>>>> = None;
                 let mut twin: AnsCoder<C::W, C::S> = AnsCoder::new();
                 let mut dr = format!("ansc {:x} {:x} {:x}", w, s, capr);
+                crate::util::set_case(&dr);
                 let mut bad: Option<String> = None;
                 for _ in 0..(rng.next() % 40) {
                     if rng.chance(1, 5) {
                         dr.push_str(" | rev");
+                        crate::util::set_case(&dr);
                         rep.count("C01.into_reversed");
                         if fwd.as_ref().map(|c| c.bulk().pos() == 0).unwrap_or(false) {
                             rep.count("C01.into_reversed.empty_bulk");
@@ -1549,11 +1565,13 @@ fn oracle_combo<C: AnsCombo>(rng: &mut Rng, w: u32, s: u32, bps: &[(u32, Vec<u32
                         let sym = rng.below(cdf.len() as u128 - 1) as usize;
                         let cp = Some((cdf[sym], cdf[sym + 1] - cdf[sym]));
                         dr.push_str(&format!(" | enc {:x} {:x} {:x} {:x}", b, p, cdf[sym], cdf[sym + 1] - cdf[sym]));
+                        crate::util::set_case(&dr);
                         o1 = match (fwd.as_mut(), rev.as_mut()) { (Some(c), _) => C::enc(c, b, p, cp).unwrap(), (_, Some(c)) => C::enc(c, b, p, cp).unwrap(), _ => unreachable!() };
                         if o1 == "full" { break; } // the bounded buffer is exhausted: end of the comparable history
                         o2 = C::enc(&mut twin, b, p, cp).unwrap();
                     } else {
                         dr.push_str(&format!(" | dec {:x} {:x} {}", b, p, show_list(cdf.clone())));
+                        crate::util::set_case(&dr);
                         o1 = match (fwd.as_mut(), rev.as_mut()) { (Some(c), _) => C::dec(c, b, p, &cdf).unwrap(), (_, Some(c)) => C::dec(c, b, p, &cdf).unwrap(), _ => unreachable!() };
                         o2 = C::dec(&mut twin, b, p, &cdf).unwrap();
                     }
@@ -1582,6 +1600,7 @@ fn oracle_combo<C: AnsCombo>(rng: &mut Rng, w: u32, s: u32, bps: &[(u32, Vec<u32
             for &(mi, sym) in pushed.iter().rev() {
                 let (b, p, cdf) = models[mi].clone();
                 d9.push_str(&format!(" | dec {:x} {:x} {}", b, p, show_list(cdf.clone())));
+                crate::util::set_case(&d9);
                 let o = C::dec(&mut enc, b, p, &cdf).unwrap();
                 if o != hex(sym as u128) {
                     rep.fail("C09", format!("{} => decoded {} expected {:x} after {} backend failures", d9, o, sym, failures));
